@@ -254,7 +254,8 @@ def check_life(pid, tier, seed):
         p = save_replay(pid, runno, byrun[runno], trace_excerpt(files, runno, 400), why)
         print(f"VIOLATION property={pid} replay={p}")
     write_evidence(pid, tier, seed, "model_checking", cov, time.time() - t0, len(bad) + len(e2e_viol))
-    shutil.rmtree(wd, ignore_errors=True)
+    if not os.environ.get("VF_KEEP"):
+        shutil.rmtree(wd, ignore_errors=True)
     return 1 if (bad or e2e_viol) else 0
 
 def tlc_plain(spec, cfg, workdir, timeout=900, workers=12):
@@ -337,7 +338,8 @@ def check_c12(tier, seed):
                    "vectors of every checked operation and of the predicate itself plus seeded random ones, in both builds, each "
                    "compared with the exact predicate computed over BigNat by FeeTrace.tla"}
     write_evidence(pid, tier, seed, "model_checking", cov, time.time() - t0, nviol)
-    shutil.rmtree(wd, ignore_errors=True)
+    if not os.environ.get("VF_KEEP"):
+        shutil.rmtree(wd, ignore_errors=True)
     return 1 if nviol else 0
 
 def check_c18(tier, seed):
@@ -394,7 +396,8 @@ def check_c18(tier, seed):
     write_evidence(pid, tier, seed, "model_checking", cov, time.time() - t0, len(bad),
                    ["BOLT 1 validity as written in Tlv.tla (canonical BigSize, strictly increasing types)",
                     "decoded records are read from the derived Debug output of SerializedTlvStream (its fields are private)"])
-    shutil.rmtree(wd, ignore_errors=True)
+    if not os.environ.get("VF_KEEP"):
+        shutil.rmtree(wd, ignore_errors=True)
     return 1 if bad else 0
 
 def check_c20(tier, seed):
@@ -510,7 +513,8 @@ def check_c20(tier, seed):
                    "getinfo calls, and C20's invariants hold in every state of the walk"}
     write_evidence(pid, tier, seed, "model_checking", cov, time.time() - t0, len(bad),
                    ["one tick = 20 s of the paused tokio clock (POLL_INTERVAL = 3 ticks)", "getinfo answered by NodeSim"])
-    shutil.rmtree(wd, ignore_errors=True)
+    if not os.environ.get("VF_KEEP"):
+        shutil.rmtree(wd, ignore_errors=True)
     return 1 if bad else 0
 
 def check_c17(tier, seed):
@@ -575,7 +579,8 @@ def check_c17(tier, seed):
                    "orders and error results; real binary: chunked stdin with trace logging on, stdout split on blank lines"}
     write_evidence(pid, tier, seed, "model_checking", cov, time.time() - t0, len(bad),
                    ["lightningd never sends an empty line inside a message", "in-memory pipes stand in for stdin/stdout in Engine A-wire; Engine C uses real pipes"])
-    shutil.rmtree(wd, ignore_errors=True)
+    if not os.environ.get("VF_KEEP"):
+        shutil.rmtree(wd, ignore_errors=True)
     return 1 if bad else 0
 
 def check_c19(tier, seed):
@@ -603,7 +608,8 @@ def check_c19(tier, seed):
     write_evidence(pid, tier, seed, "model_checking", cov, time.time() - t0, len(st["violations"]),
                    ["option values reach the plugin as JSON integers in the init call (64-bit signed)", "the fake lightningd of Engine C",
                     "MPP timeout measured in real time with a tolerance of -0.2 s / +1.2 s"])
-    shutil.rmtree(wd, ignore_errors=True)
+    if not os.environ.get("VF_KEEP"):
+        shutil.rmtree(wd, ignore_errors=True)
     return 1 if st["violations"] else 0
 
 def selftest():
